@@ -118,6 +118,40 @@ def run_laws(case, drv) -> Outcome:
             # reflection about the plane perpendicular to the rotation axis: matrix(p) (1 - 2 n n^T), det flips
             if not close(torch.linalg.det(mrf), -torch.linalg.det(mp), 1e-6):
                 viol = viol or v('reflect', 'reflect() does not flip the determinant')
+            # the reflection is about the plane perpendicular to the rotation axis n: matrix (1 - 2 n n^T) matrix(p), whatever the
+            # sign of the stored quaternion, and doing it twice gives p back
+            qx = torch.as_tensor(p.as_quat(), dtype=torch.float64)[..., :3]
+            nrm = qx.norm(dim=-1, keepdim=True)
+            if float(nrm.min()) > 1e-3:
+                nax = qx / nrm
+                house = eye - 2 * nax[..., :, None] * nax[..., None, :]
+                if not close(mrf, house @ mp, 1e-6):
+                    viol = viol or v('reflect-plane', 'reflect() is not the reflection about the plane perpendicular to the rotation axis: matrix != (1 - 2 n n^T) matrix(p)')
+                st_rr, rr = call(lambda: rf.reflect())
+                if st_rr == 'ok' and not close(mats(rr), mp, 1e-6):
+                    viol = viol or v('reflect-twice', 'p.reflect().reflect() is not p')
+    # vectors of other dtypes (voxel indices, matrix sizes; single precision coordinates): the rotation is never rounded to the
+    # vectors' dtype
+    ivec = torch.tensor([rng.randint(-40, 40) for _ in range(3)], dtype=rng.choice([torch.int64, torch.int32]))
+    st_i, pi_ = call(lambda: p(ivec))
+    if st_i == 'ok':
+        want_i = (mp @ ivec.to(torch.float64)[..., None])[..., 0]
+        if not close(torch.as_tensor(pi_).to(torch.float64), want_i, 1e-6 * 40):
+            viol = viol or v('apply-int', f'p(v) for an integer vector v = {ivec.tolist()} is not matrix(p) v')
+        else:
+            st_b, back_i = call(lambda: p(pi_, inverse=True))
+            if st_b == 'ok' and not close(torch.as_tensor(back_i).to(torch.float64), ivec.to(torch.float64).expand(*mp.shape[:-2], 3) if mp.ndim > 2 else ivec.to(torch.float64), 1e-4):
+                viol = viol or v('apply-int-inverse', 'p(p(v), inverse=True) != v for an integer vector v')
+    fvec = vec.to(torch.float32)
+    st_f, pf = call(lambda: p(fvec))
+    if st_f == 'ok' and not close(torch.as_tensor(pf).to(torch.float64), (mp @ fvec.to(torch.float64)[..., None])[..., 0], 1e-5):
+        viol = viol or v('apply-float32', 'p(v) for a single precision vector is not matrix(p) v')
+    sdi = SpatialDimension(z=int(ivec[0]), y=int(ivec[1]), x=int(ivec[2]))
+    st_s, psi = call(lambda: p(sdi))
+    if st_s == 'ok' and st_i == 'ok':
+        got_i = torch.stack([torch.as_tensor(psi.z), torch.as_tensor(psi.y), torch.as_tensor(psi.x)], -1).to(torch.float64)
+        if not close(got_i, (mp @ ivec.to(torch.float64)[..., None])[..., 0], 1e-4):
+            viol = viol or v('spatialdimension-int', 'applying to an integer SpatialDimension differs from matrix(p) applied to its (z, y, x) values')
     # SpatialDimension application
     sd = SpatialDimension(z=float(vec[0]), y=float(vec[1]), x=float(vec[2]))
     st, ps = call(lambda: p(sd))
